@@ -4,6 +4,7 @@ import (
 	"fmt"
 	"sort"
 	"testing"
+	"time"
 
 	distrtypes "github.com/chain4energy/c4e-chain/x/cfedistributor/types"
 	"pgregory.net/rapid"
@@ -160,8 +161,21 @@ func TestC14(t *testing.T) {
 			}
 			return decisions[fmt.Sprintf("b%d/%s/%s", curBlock, kind, addr)]
 		}
+		// a fault that ends by itself: in one case in three the clock jumps past the end of the locked vesting
+		// account's schedule during the fault-free suffix, from then on that source can be swept
+		unlockAt := -1
+		if rapid.IntRange(0, 2).Draw(t, "unlock") == 0 {
+			unlockAt = faultBlocks + rapid.IntRange(0, 1).Draw(t, "unlockAfter")
+		}
+		unlockedTime := T0.Add(10*365*24*time.Hour + 24*time.Hour)
+		lockedSourceUnlocked = false
+		defer func() { lockedSourceUnlocked = false }()
 		for b := 0; b < blocks; b++ {
 			curBlock = b
+			if b == unlockAt {
+				r.Ctx = r.Ctx.WithBlockTime(unlockedTime)
+				lockedSourceUnlocked = true
+			}
 			for _, in := range inflows {
 				if in.Block == b {
 					r.Inject(in.Acc, in.Denom, bigFromStr(in.Amt))
@@ -220,9 +234,18 @@ func TestC14(t *testing.T) {
 		if lockedSrc && lockedDst {
 			cl["locked_src_and_dst_no_twin"] = true
 		}
+		if lockedSrc && unlockAt >= 0 {
+			cl["locked_source_unlocks_in_the_suffix"] = true
+		}
 		if acyclic && !shared && !(lockedSrc && lockedDst) {
 			cl["twin_compared"] = true
-			_, twin := runDistrCase(t, cfg, inflows, blocks, func(r *DistrRun) {})
+			lockedSourceUnlocked = false
+			_, twin := runDistrCase(t, cfg, inflows, blocks, func(r *DistrRun) {
+				if r.Block == unlockAt { // called after block number r.Block (1-based): the next one is index unlockAt
+					r.Ctx = r.Ctx.WithBlockTime(unlockedTime)
+					lockedSourceUnlocked = true
+				}
+			})
 			for _, ad := range r.addrs {
 				if ad == mainAddrStr() {
 					continue
